@@ -259,7 +259,9 @@ func drawCase(t *rapid.T) Case {
 			c.GQL = append(c.GQL, g)
 		}
 	}
-	c.AvoidDeleteStall = rapid.Bool().Draw(t, "avoidDeleteStall")
+	// 85 % rather than half: every stalled subscription goroutine is leaked for the rest of the
+	// process together with its node (about 20 MB each), see sigStallDelete
+	c.AvoidDeleteStall = rapid.IntRange(0, 19).Draw(t, "avoidDeleteStall") < 17
 	for i := 0; i < nops; i++ {
 		if i == 0 && rapid.IntRange(0, 9).Draw(t, "seed") < 8 {
 			op := Op{Kind: "create"}
